@@ -29,7 +29,11 @@ RULE = ('Every stimulus function / factory of psiaudio.stim with a level (tone, 
         'calibration; levels -40..140 dB, d in -30..30 dB, rates 25 k / 100 k / 195312.5; audiogram weighting on and off; whole-cycle '
         'tones of 8..400 samples at every kind of calibration for the RMS law, SAM tones on the bin grid for the component law; the '
         'same with frequencies passed as Python ints / integer arrays (np.arange(fl, fh + 1)) through flat calibrations with a '
-        'fractional sensitivity (from_mv_pa(1.85), from_spl(80.5, 0.1)).  '
+        'fractional sensitivity (from_mv_pa(1.85), from_spl(80.5, 0.1)); levels / polarities / rates handed over as Python int, float, '
+        'np.float64, np.float32, np.int8 / np.int64 (level 0 and seed 0 included); seconds-based twins with off-grid durations against '
+        'their sample-based twins; sideband phases, equalize on / off; max_correction inf / None / 0 / finite; audiogram weighting mouse '
+        '/ nan / None; returned arrays overwritten by the caller between runs; requests that must be refused (depth != 1, equalize '
+        'without calibration, unknown level unit / normalisation, neither or both of samples and duration).  '
         'Non-trivial: every case.  Distinct = distinct case dictionaries.')
 TRUSTED = ['translate/pyexpr2coq.py + pyexpr2coq_ext.py + translate/c08_spec.py + translate/c07_spec.py (fail-closed AST translator; '
            'self-tested on every run by an independent interpreter of the emitted text against the real code)',
